@@ -11,7 +11,8 @@ RULE = {
     "quick": "exhaustive: every n in [0,253^3) enumerated digit by digit (encode == positional model, "
              "round trip, k-byte prefix, no 00/FF, FE filler) and every byte string of length 0..3 "
              "(decode == positional formula); 4-byte range stratified: every top digit x low digits "
-             "in {0,1,2,126,251,252}^3, plus Hypothesis-drawn ints and 4..8 byte strings. "
+             "in {0,1,2,126,251,252}^3, plus Hypothesis-drawn ints, 4..8 byte strings and short call sequences "
+             "(the last encoding must not depend on earlier calls). "
              "Non-trivial: n >= 253, or a byte string containing 00/FE/FF; distinct by value.",
     "thorough": "as quick, plus every one of the 253^4 = 4,097,152,081 integers enumerated digit by "
                 "digit over 253 shards. Non-trivial: n >= 253, or a byte string containing 00/FE/FF; "
@@ -147,6 +148,22 @@ def run_task(task):
                         raise Violation("wire_safe", {"kind": "n", "n": n}, "no 00/FF", exp.hex())
                     if n >= B:
                         res.nontrivial(("n", n))
+                elif case[0] == "seq":
+                    # history independence: the encoding of the last number must not depend on
+                    # which numbers were encoded / decoded before it
+                    for m in case[1][:-1]:
+                        enc_f(m)
+                        dec_f(refcodec.ref_encode(m))
+                    n = case[1][-1]
+                    exp = refcodec.ref_encode(n)
+                    got = enc_f(n)
+                    if got != exp:
+                        raise Violation("encode_independent_of_call_history", {"kind": "seq", "ns": list(case[1])},
+                                        exp.hex(), bytes(got).hex())
+                    if dec_f(got) != n:
+                        raise Violation("encode_independent_of_call_history", {"kind": "seq", "ns": list(case[1])},
+                                        n, dec_f(got))
+                    res.nontrivial(("seq",) + tuple(case[1]))
                 else:
                     bs = case[1]
                     g = dec_f(bs)
@@ -164,7 +181,11 @@ def run_task(task):
                                        st.sampled_from([0, 1, 252, 253, 64008, 64009, B ** 3 - 1])))
             special = st.sampled_from([0, 1, 0xFD, 0xFE, 0xFF])
             bts = st.lists(st.one_of(st.integers(0, 255), special), min_size=0, max_size=8).map(bytes)
-            strat = st.one_of(st.tuples(st.just("n"), ints), st.tuples(st.just("b"), bts))
+            widths = st.sampled_from([0, 252, 253, 64008, 64009, B ** 3 - 1, B ** 3, B ** 4 - 1])
+            anyw = st.one_of(ints, widths, st.integers(0, 252), st.integers(253, 64008), st.integers(64009, B ** 3 - 1))
+            seqs = st.lists(anyw, min_size=2, max_size=4).map(tuple)
+            strat = st.one_of(st.tuples(st.just("n"), ints), st.tuples(st.just("b"), bts),
+                              st.tuples(st.just("seq"), seqs))
             hyp.campaign(strat, oracle, task["n"], task["seed"], res)
     except Violation as v:
         res.violation(v)
@@ -192,6 +213,16 @@ def plan(tier, seed):
 def replay(case):
     c = loader.core()
     enc_f, dec_f = c.data.encode_number, c.data.decode_number
+    if case["kind"] == "seq":
+        for m in case["ns"][:-1]:
+            enc_f(m)
+            dec_f(refcodec.ref_encode(m))
+        n = case["ns"][-1]
+        exp = refcodec.ref_encode(n)
+        got = enc_f(n)
+        if got != exp or dec_f(got) != n:
+            raise Violation("encode_independent_of_call_history", case, exp.hex(), bytes(got).hex())
+        return
     if case["kind"] == "n":
         n = case["n"]
         exp = refcodec.ref_encode(n)
